@@ -156,6 +156,11 @@ impl<'a> P<'a> {
         }
     }
 }
+fn parse_dbg_prefix(s: &str) -> Result<Dbg, String> {
+    let cs: Vec<char> = s.chars().collect();
+    let mut p = P { s: &cs, i: 0 };
+    p.value()
+}
 fn parse_dbg(s: &str) -> Result<Dbg, String> {
     let cs: Vec<char> = s.chars().collect();
     let mut p = P { s: &cs, i: 0 };
@@ -188,7 +193,24 @@ enum Ex {
     Bin(&'static str, Box<Ex>, Box<Ex>), // Equal SameTerm Greater GreaterOrEqual Less LessOrEqual Add Subtract Multiply
     Un(&'static str, Box<Ex>),            // UnaryPlus UnaryMinus Abs
     Exists(Box<Pat>),
+    /// BNODE() / BNODE(e): a blank node that is fresh for EVERY evaluation (17.4.2.9), i.e. for every solution
+    Fresh(Option<Box<Ex>>),
+    /// TRIPLE(s, p, o), IF(c, t, e), COALESCE(..), isBlank(e): the forms through which a fresh blank node is carried or tested
+    Tri(Box<Ex>, Box<Ex>, Box<Ex>), If(Box<Ex>, Box<Ex>, Box<Ex>), Coalesce(Vec<Ex>), IsBlank(Box<Ex>),
     Other(String),
+}
+impl Ex {
+    /// the immediate sub-expressions (EXISTS groups are not expressions)
+    fn kids(&self) -> Vec<&Ex> {
+        match self {
+            Ex::Var(_) | Ex::Const(_) | Ex::Bound(_) | Ex::Exists(_) | Ex::Other(_) | Ex::Fresh(None) => vec![],
+            Ex::Not(a) | Ex::Un(_, a) | Ex::IsBlank(a) | Ex::Fresh(Some(a)) => vec![a],
+            Ex::Or(a, b) | Ex::And(a, b) | Ex::Bin(_, a, b) => vec![a, b],
+            Ex::Tri(a, b, c) | Ex::If(a, b, c) => vec![a, b, c],
+            Ex::Coalesce(v) => v.iter().collect(),
+        }
+    }
+    fn has_fresh(&self) -> bool { matches!(self, Ex::Fresh(_)) || self.kids().iter().any(|k| k.has_fresh()) }
 }
 #[derive(Clone, Debug)]
 enum Pat {
@@ -262,6 +284,22 @@ fn rd_ex(d: &Dbg) -> Result<Ex, String> {
             if args.len() != 1 { return Err("Abs arity".into()) }
             Ex::Un("Abs", Box::new(rd_ex(&args[0])?))
         }
+        "FunctionCall" if d.f("0")?.name() == "BNode" => {
+            let args = d.f("1")?.list()?;
+            match args.len() { 0 => Ex::Fresh(None), 1 => Ex::Fresh(Some(Box::new(rd_ex(&args[0])?))), _ => return Err("BNode arity".into()) }
+        }
+        "FunctionCall" if d.f("0")?.name() == "IsBlank" => {
+            let args = d.f("1")?.list()?;
+            if args.len() != 1 { return Err("IsBlank arity".into()) }
+            Ex::IsBlank(Box::new(rd_ex(&args[0])?))
+        }
+        "FunctionCall" if d.f("0")?.name() == "Triple" => {
+            let args = d.f("1")?.list()?;
+            if args.len() != 3 { return Err("Triple arity".into()) }
+            Ex::Tri(Box::new(rd_ex(&args[0])?), Box::new(rd_ex(&args[1])?), Box::new(rd_ex(&args[2])?))
+        }
+        "If" => Ex::If(bx("0")?, bx("1")?, bx("2")?),
+        "Coalesce" => Ex::Coalesce(d.f("0")?.list()?.iter().map(rd_ex).collect::<Result<_, _>>()?),
         n => Ex::Other(n.to_string()),
     })
 }
@@ -292,9 +330,9 @@ fn rd_pat(d: &Dbg) -> Result<Pat, String> {
 }
 fn rd_query(dbg: &str) -> Result<Qy, String> {
     // SparqlQuery { algebra: <Query>, _phantom: PhantomData<..> }
+    // (whatever other private fields the wrapper has, before or after, are none of the harness's business)
     let st = dbg.find("algebra: ").ok_or("no algebra")? + 9;
-    let en = dbg.rfind(", _phantom").ok_or("no _phantom")?;
-    let d = parse_dbg(&dbg[st..en])?;
+    let d = parse_dbg_prefix(&dbg[st..])?;
     let has_ds = |d: &Dbg| -> Result<bool, String> { Ok(d.f("dataset")?.name() != "None") };
     Ok(match d.name() {
         "Select" => Qy::Select(has_ds(&d)?, rd_pat(d.f("pattern")?)?),
@@ -324,9 +362,16 @@ fn c_ex(e: &Ex) -> Option<String> {
         Ex::And(a, b) => format!("(CAnd {} {})", c_ex(a)?, c_ex(b)?),
         Ex::Bin(op, a, b) => format!("(C{op} {} {})", c_ex(a)?, c_ex(b)?),
         Ex::Un(op, a) => format!("(C{op} {})", c_ex(a)?),
-        Ex::Exists(_) | Ex::Other(_) => return None,
+        // BNODE() / BNODE("constant") standing alone: the model, whose expressions are functions of the solution, runs with ONE
+        // placeholder node in its stead and is compared with the engine's rows under the same masking (see `maskable`);
+        // that the engine's nodes are fresh is checked next to it by Fresh.fresh_ok
+        Ex::Fresh(None) if MASK_FRESH.with(|f| f.get()) => format!("(CConst {})", T::Bn(MASK.into()).coq()),
+        Ex::Fresh(Some(a)) if MASK_FRESH.with(|f| f.get()) && matches!(&**a, Ex::Const(t) if plain_string(t).is_some()) => format!("(CConst {})", T::Bn(MASK.into()).coq()),
+        Ex::Exists(_) | Ex::Other(_) | Ex::Fresh(_) | Ex::Tri(..) | Ex::If(..) | Ex::Coalesce(_) | Ex::IsBlank(_) => return None,
     })
 }
+const MASK: &str = "\u{1}";
+thread_local! { static MASK_FRESH: std::cell::Cell<bool> = std::cell::Cell::new(false); }
 fn c_pat(p: &Pat) -> Option<String> {
     Some(match p {
         Pat::Bgp(ps) => format!("(Bgp {})", coq_list(ps.iter().map(|t| format!("({}, {}, {})", c_tp(&t[0]), c_tp(&t[1]), c_tp(&t[2]))))),
@@ -365,7 +410,7 @@ fn w_ex(e: &Ex) -> Option<String> {
         Ex::Bin(op, a, b) => format!("(W{op} {} {})", w_ex(a)?, w_ex(b)?),
         Ex::Un(op, a) => format!("(W{op} {})", w_ex(a)?),
         Ex::Exists(p) => format!("(WExists {})", w_pat(p)?),
-        Ex::Other(_) => return None,
+        Ex::Other(_) | Ex::Fresh(_) | Ex::Tri(..) | Ex::If(..) | Ex::Coalesce(_) | Ex::IsBlank(_) => return None,
     })
 }
 fn w_pat(p: &Pat) -> Option<String> {
@@ -445,7 +490,7 @@ fn ex_unsupported(e: &Ex) -> bool {
         Ex::Exists(p) => pat_unsupported(p),
         Ex::Not(a) | Ex::Un(_, a) => ex_unsupported(a),
         Ex::Or(a, b) | Ex::And(a, b) | Ex::Bin(_, a, b) => ex_unsupported(a) || ex_unsupported(b),
-        _ => false,
+        _ => e.kids().iter().any(|k| ex_unsupported(k)),
     }
 }
 /// an operator outside the supported fragment occurs somewhere in the query
@@ -594,9 +639,28 @@ fn ev(e: &Ex, mu: &Mu, ds: &Ds, g: &Option<T>) -> Result<Result<T, ()>, OErr> {
                 Ok(tbool(compatible))
             } else { Ok(tbool(by_substitution()?)) }
         }
+        // 17.4.2.9: a blank node that is distinct from every blank node of the dataset and from every blank node created by
+        // another call for this or for ANOTHER solution; the argument must be a simple literal / xsd:string.  (With the same
+        // string in the same solution the Recommendation gives the same node -- known finding FUNC-BNODE-ARG-IGNORED; the
+        // generator never writes the same argument twice in a query)
+        Ex::Fresh(arg) => {
+            if let Some(a) = arg { let x = tryv!(a); if plain_string(&x).is_none() { return Ok(Err(())) } }
+            let k = FRESH_COUNTER.with(|c| { c.set(c.get() + 1); c.get() });
+            Ok(T::Bn(format!("{MASK}f{k}")))
+        }
+        Ex::Tri(a, b, c) => {
+            let (s, p, o) = (tryv!(a), tryv!(b), tryv!(c));
+            // RDF 1.2: subject an IRI or a blank node, predicate an IRI
+            if !matches!(s, T::Iri(_) | T::Bn(_)) || !matches!(p, T::Iri(_)) { return Ok(Err(())) }
+            Ok(ttr(s, p, o))
+        }
+        Ex::If(c, t, f) => match ebv_of(c)? { Ok(true) => ev(t, mu, ds, g)?, Ok(false) => ev(f, mu, ds, g)?, Err(()) => Err(()) },
+        Ex::Coalesce(es) => { let mut out = Err(()); for x in es { if let Ok(v) = ev(x, mu, ds, g)? { out = Ok(v); break } } out }
+        Ex::IsBlank(a) => { let x = tryv!(a); Ok(tbool(matches!(x, T::Bn(_)))) }
         Ex::Other(n) => return Err(OErr::Undetermined(format!("expression {n}"))),
     })
 }
+thread_local! { static FRESH_COUNTER: std::cell::Cell<usize> = std::cell::Cell::new(0); }
 /// substitute(pattern, mu) of 18.6: every variable of dom(mu) is replaced by its value EVERYWHERE in the pattern -- triple
 /// patterns (also inside quoted triple patterns), the name of GRAPH, FILTER / BIND / ORDER BY expressions, nested EXISTS.
 /// Left undetermined: BIND to a variable of dom(mu) (BIND(e AS <constant>) is not a pattern) and sub-selects that HIDE a
@@ -623,6 +687,9 @@ fn subst_ex(e: &Ex, mu: &Mu) -> Result<Ex, OErr> {
         Ex::Not(a) => Ex::Not(b(a)?), Ex::Or(x, y) => Ex::Or(b(x)?, b(y)?), Ex::And(x, y) => Ex::And(b(x)?, b(y)?),
         Ex::Bin(op, x, y) => Ex::Bin(*op, b(x)?, b(y)?), Ex::Un(op, x) => Ex::Un(*op, b(x)?),
         Ex::Exists(p) => Ex::Exists(Box::new(subst_pat(p, mu)?)),
+        Ex::Fresh(None) => e.clone(), Ex::Fresh(Some(a)) => Ex::Fresh(Some(b(a)?)), Ex::IsBlank(a) => Ex::IsBlank(b(a)?),
+        Ex::Tri(x, y, z) => Ex::Tri(b(x)?, b(y)?, b(z)?), Ex::If(x, y, z) => Ex::If(b(x)?, b(y)?, b(z)?),
+        Ex::Coalesce(es) => Ex::Coalesce(es.iter().map(|x| subst_ex(x, mu)).collect::<Result<_, _>>()?),
     })
 }
 fn subst_pat(p: &Pat, mu: &Mu) -> Result<Pat, OErr> {
@@ -654,7 +721,8 @@ fn subst_pat(p: &Pat, mu: &Mu) -> Result<Pat, OErr> {
 /// every variable that occurs anywhere in a pattern / an expression (nested EXISTS groups and sub-selects included)
 fn ex_all_vars(e: &Ex, out: &mut BTreeSet<String>) {
     match e { Ex::Var(v) | Ex::Bound(v) => { out.insert(v.clone()); } Ex::Not(a) | Ex::Un(_, a) => ex_all_vars(a, out), Ex::Or(a, b) | Ex::And(a, b) | Ex::Bin(_, a, b) => { ex_all_vars(a, out); ex_all_vars(b, out) }
-        Ex::Exists(p) => pat_all_vars(p, out), Ex::Const(_) | Ex::Other(_) => {} }
+        Ex::Exists(p) => pat_all_vars(p, out), Ex::Const(_) | Ex::Other(_) => {}
+        Ex::Fresh(_) | Ex::Tri(..) | Ex::If(..) | Ex::Coalesce(_) | Ex::IsBlank(_) => e.kids().iter().for_each(|k| ex_all_vars(k, out)) }
 }
 fn pat_all_vars(p: &Pat, out: &mut BTreeSet<String>) {
     match p {
@@ -770,6 +838,34 @@ fn eval_top(p: &Pat, ds: &Ds) -> Result<(Vec<Mu>, Option<(usize, Option<usize>)>
 #[derive(Debug, Clone)]
 enum Obs { Rows(Vec<String>, Vec<Vec<Option<T>>>), Bool(bool), Err(String), Panic(String), Parse(String) }
 
+/// One prepared query executed first on `decoy`, then on `d`: the observation of the SECOND execution.
+fn run_engine_reused(decoy: &LightDataset, d: &LightDataset, q: &str) -> Option<Obs> {
+    let parsed = SparqlQuery::<LightDataset>::parse(q).ok()?;
+    let exec = |d: &LightDataset| std::panic::catch_unwind(std::panic::AssertUnwindSafe(|| {
+        match SparqlWrapper(d).query(&parsed) {
+            Err(e) => Obs::Err(e.to_string()),
+            Ok(SparqlResult::Boolean(b)) => Obs::Bool(b),
+            Ok(SparqlResult::Bindings(b)) => {
+                let vars: Vec<String> = b.variables().iter().map(|s| s.to_string()).collect();
+                let mut rows = vec![];
+                for row in b {
+                    match row { Ok(r) => rows.push(r.iter().map(|t| t.as_ref().map(|t| T::from_term(t.borrow_term()))).collect()), Err(e) => return Obs::Err(format!("row error: {e}")) }
+                }
+                Obs::Rows(vars, rows)
+            }
+            Ok(_) => Obs::Err("unexpected result kind".into()),
+        }
+    }));
+    let _ = exec(decoy);
+    Some(match exec(d) { Ok(o) => o, Err(p) => Obs::Panic(p.downcast_ref::<String>().cloned().or(p.downcast_ref::<&str>().map(|s| s.to_string())).unwrap_or_default()) })
+}
+/// observations compared as multisets of rows (the engine promises no order without ORDER BY)
+fn obs_key(o: &Obs) -> String {
+    match o {
+        Obs::Rows(v, rows) => { let mut r: Vec<String> = rows.iter().map(|x| format!("{x:?}")).collect(); r.sort(); format!("rows {v:?} {r:?}") }
+        o => format!("{o:?}"),
+    }
+}
 fn run_engine(d: &LightDataset, q: &str) -> (Obs, Option<String>) {
     let parsed = match SparqlQuery::<LightDataset>::parse(q) { Ok(p) => p, Err(e) => return (Obs::Parse(e.to_string()), None) };
     let dbg = format!("{parsed:?}");
@@ -1403,6 +1499,109 @@ impl<'a> Gen<'a> {
         if let Some(n) = &graph { body = if has_bnode(n) || self.r.chance(1, 2) { let v = self.var_for(n); format!("GRAPH ?{v} {{ {body} }}") } else { format!("GRAPH {} {{ {body} }}", n.sparql(false)) } }
         if self.r.chance(1, 6) { format!("ASK {{ {body} }}") } else { format!("SELECT {}{proj} WHERE {{ {body} }}", if self.r.chance(1, 5) { "DISTINCT " } else { "" }) }
     }
+    // ---------- stream `fresh`: BNODE in BIND / SELECT expressions over patterns with several solutions ----------
+    /// an expression that creates a blank node (alone, carried by TRIPLE / IF / COALESCE, or tested on the spot); every BNODE
+    /// argument is a string constant of its own, or -- once per query -- a variable
+    fn fresh_expr(&mut self) -> String {
+        let v = self.var();
+        let call = |me: &mut Self| -> String { match me.r.below(6) { 0 | 1 | 2 => "BNODE()".to_string(), 3 | 4 => { me.fresh += 1; format!("BNODE(\"s{}\")", me.fresh) } _ => if !me.unsafe_vars.insert("\u{0}BNODE(?v) written".to_string()) { "BNODE()".to_string() } else { format!("BNODE(?{})", me.var()) } } };
+        match self.r.below(16) {
+            0..=5 => call(self),
+            6 => format!("TRIPLE({}, <tag:q>, 1)", call(self)),
+            7 => format!("TRIPLE(<tag:a>, <tag:p>, {})", call(self)),
+            8 => format!("TRIPLE({}, <tag:p>, {})", call(self), call(self)),
+            9 => format!("IF(true, {}, 1)", call(self)),
+            10 => format!("IF(BOUND(?{v}), {}, <tag:a>)", call(self)),
+            11 => format!("COALESCE(?unbound, {})", call(self)),
+            12 => format!("COALESCE({}, 1)", call(self)),
+            13 => format!("IF(isBlank(?{v}), ?{v}, {})", call(self)),
+            14 => format!("isBlank({})", call(self)),
+            _ => format!("sameTerm({}, {})", call(self), call(self)),
+        }
+    }
+    fn fresh_query(&mut self) -> String {
+        let names: Vec<T> = self.quads.iter().filter_map(|q| q.3.clone()).collect::<BTreeSet<_>>().into_iter().collect();
+        let graph: Option<T> = if !names.is_empty() && self.r.chance(1, 4) { Some(self.r.pick(&names).clone()) } else { None };
+        let mut bgp = |me: &mut Self| -> String { let n = *me.r.pick(&[1usize, 1, 1, 2]); me.bnwit.clear(); (0..n).map(|_| if me.r.chance(3, 5) { let (s, o) = (me.r.ps(VARS), me.r.ps(VARS)); format!("?{s} {} ?{o}", me.r.ps(&["<tag:p>", "<tag:p>", "<tag:q>", "<tag:n>", "?p"])) } else { me.triple_pat(&graph) }).collect::<Vec<_>>().join(" . ") };
+        let first = bgp(self);
+        let mut ks: Vec<String> = vec![];
+        let mut bind = |me: &mut Self, ks: &mut Vec<String>| -> String { me.fresh += 1; let k = format!("k{}", me.fresh); let e = me.fresh_expr(); ks.push(k.clone()); format!(" BIND({e} AS ?{k})") };
+        let mut body = first.clone();
+        let shape = self.r.below(12);
+        match shape {
+            0..=4 => { body.push_str(&bind(self, &mut ks)); }
+            5 => { body.push_str(&bind(self, &mut ks)); body.push_str(&bind(self, &mut ks)); }
+            6 => { let b1 = bind(self, &mut ks); let second = bgp(self); let k = ks[0].clone(); let e = self.fresh_expr(); body = format!("{{ {first}{b1} }} UNION {{ {second} BIND({e} AS ?{k}) }}"); }
+            7 => { let e = self.fresh_expr(); self.fresh += 1; let k = format!("k{}", self.fresh); ks.push(k.clone()); let v = self.var(); body = format!("{{ SELECT {}?{v} ({e} AS ?{k}) WHERE {{ {first} }} }}", self.r.ps(&["", "DISTINCT "])); if self.r.chance(1, 2) { body.push_str(&bind(self, &mut ks)); } }
+            8 => { body.push_str(&bind(self, &mut ks)); let k = ks[0].clone(); self.fresh += 1; let k2 = format!("k{}", self.fresh); let e = match self.r.below(4) { 0 => format!("?{k}"), 1 => format!("isBlank(?{k})"), 2 => format!("sameTerm(?{k}, ?{k})"), _ => format!("TRIPLE(?{k}, <tag:p>, ?{k})") }; ks.push(k2.clone()); body.push_str(&format!(" BIND({e} AS ?{k2})")); }
+            9 => { body.push_str(&bind(self, &mut ks)); let k = ks[0].clone(); let v = self.var(); let f = match self.r.below(5) { 0 => format!("isBlank(?{k})"), 1 => format!("!sameTerm(?{k}, ?{v})"), 2 => format!("BOUND(?{k})"), 3 => format!("EXISTS {{ ?ex1 ?ex2 ?{k} }}"), _ => format!("NOT EXISTS {{ ?{k} ?ex2 ?ex3 }}") }; body.push_str(&format!(" FILTER({f})")); }
+            _ => {}
+        }
+        if let Some(n) = &graph { body = if has_bnode(n) || self.r.chance(1, 2) { format!("GRAPH ?g {{ {body} }}") } else { format!("GRAPH {} {{ {body} }}", n.sparql(false)) } }
+        if self.r.chance(1, 10) { return format!("ASK {{ {body} }}") }
+        let distinct = if self.r.chance(2, 5) { "DISTINCT " } else { "" };
+        let mut proj: Vec<String> = vec![];
+        for k in &ks { if self.r.chance(4, 5) { proj.push(format!("?{k}")) } }
+        for _ in 0..self.r.below(3) { proj.push(format!("?{}", self.var())) }
+        let proj: Vec<String> = proj.into_iter().collect::<BTreeSet<_>>().into_iter().collect();
+        let mut head = if (proj.is_empty() || self.r.chance(1, 4)) && shape < 10 { "*".to_string() } else { proj.join(" ") };
+        if head != "*" && (shape >= 10 || self.r.chance(1, 4)) { let e = self.fresh_expr(); head = format!("{head} ({e} AS ?kk)"); if self.r.chance(1, 3) { let e = self.fresh_expr(); head = format!("{head} ({e} AS ?kk2)"); } }
+        if head.trim().is_empty() || head.starts_with(" (") { let e = self.fresh_expr(); head = format!("({e} AS ?kk)"); }
+        let mut q = format!("SELECT {distinct}{head} WHERE {{ {body} }}");
+        if self.r.chance(1, 6) { if self.r.chance(1, 2) { q.push_str(&format!(" OFFSET {}", self.r.below(3))); } q.push_str(&format!(" LIMIT {}", 1 + self.r.below(4))); }
+        q
+    }
+    // ---------- stream `slice-sweep`: OFFSET / LIMIT windows over BGPs most of whose candidate triples are rejected ----------
+    /// a triple pattern in which a variable / a blank node placeholder that is (mostly) still unbound occurs twice -- also inside
+    /// a quoted-triple pattern -- so that the dataset hands over candidates which the binding phase rejects
+    fn loopy_pat(&mut self) -> String {
+        let x = if self.r.chance(1, 3) { self.var() } else { self.r.ps(&["x", "y", "s"]).to_string() };
+        let p = self.r.ps(&["<tag:p>", "<tag:p>", "<tag:q>"]);
+        let q = self.r.ps(&["<tag:q>", "<tag:p>", "?q"]);
+        self.bn += 1; let b = format!("b{}", self.bn);
+        match self.r.below(14) {
+            0 | 1 | 2 => format!("?{x} {p} ?{x}"),
+            3 => format!("?{x} ?p ?{x}"),
+            4 | 5 => format!("_:{b} {p} _:{b}"),
+            6 => format!("?s ?{x} ?{x}"),
+            7 => format!("<< ?{x} {p} ?{x} >> {q} ?o"),
+            8 => format!("?o {q} << ?{x} ?p ?{x} >>"),
+            9 => format!("<< ?{x} ?p ?y >> {q} ?{x}"),
+            10 => format!("?{x} ?{x} ?{x}"),
+            11 => format!("<< _:{b} {p} _:{b} >> {q} ?o"),
+            12 => format!("_:{b} ?p _:{b}"),
+            _ => format!("[] {p} []"),        // control: nothing is rejected
+        }
+    }
+    /// SELECT without OFFSET / LIMIT (the caller appends the window)
+    fn loop_query(&mut self) -> String {
+        let names: Vec<T> = self.quads.iter().filter_map(|q| q.3.clone()).collect::<BTreeSet<_>>().into_iter().collect();
+        let graph: Option<T> = if !names.is_empty() && self.r.chance(1, 3) { Some(self.r.pick(&names).clone()) } else { None };
+        self.bnwit.clear();
+        let mut pats: Vec<String> = (0..*self.r.pick(&[0usize, 0, 0, 1, 1, 2])).map(|_| self.triple_pat(&graph)).collect();
+        let special = self.loopy_pat();
+        if self.r.chance(3, 5) { pats.push(special) } else { let at = self.r.below(pats.len() + 1); pats.insert(at, special) }
+        let bgp = pats.join(" . ");
+        let v = self.var();
+        let mut body = match self.r.below(12) {
+            0..=5 => bgp,
+            6 => format!("{bgp} BIND({} AS ?k1)", self.r.ps(&["1", "BOUND(?x)", "?x", "<tag:a>"])),
+            7 => format!("{bgp} FILTER({}BOUND(?{v}))", self.r.ps(&["", "!"])),
+            8 => { let other = self.loopy_pat(); format!("{{ {bgp} }} UNION {{ {other} }}") }
+            9 => format!("{{ SELECT * WHERE {{ {bgp} }} LIMIT {} }}", 1 + self.r.below(3)),
+            10 => format!("{{ SELECT {}?x ?{v} WHERE {{ {bgp} }} }}", self.r.ps(&["", "DISTINCT "])),
+            _ => format!("{bgp} FILTER(sameTerm(?{v}, ?{v}))"),
+        };
+        if let Some(n) = &graph { body = if has_bnode(n) || self.r.chance(1, 2) { format!("GRAPH ?g {{ {body} }}") } else { format!("GRAPH {} {{ {body} }}", n.sparql(false)) } }
+        let head = match self.r.below(8) { 0..=4 => "*".to_string(), 5 => format!("?{v}"), 6 => format!("?x ?{v}"), _ => format!("?x ?{v} ({} AS ?kk)", self.r.ps(&["BOUND(?x)", "1", "?x"])) };
+        format!("SELECT {}{head} WHERE {{ {body} }}", if self.r.chance(1, 8) { "DISTINCT " } else { "" })
+    }
+    /// the random grammar, SELECT without ORDER BY / OFFSET / LIMIT (the caller appends the window)
+    fn unsliced_query(&mut self) -> String {
+        let body = self.group(0, &None);
+        let proj = if self.r.chance(1, 2) { "*".to_string() } else { (0..self.r.range(1, 4)).map(|_| format!("?{}", self.var())).collect::<BTreeSet<_>>().into_iter().collect::<Vec<_>>().join(" ") };
+        format!("SELECT {}{proj} WHERE {{ {body} }}", if self.r.chance(1, 5) { "DISTINCT " } else { "" })
+    }
     fn query(&mut self) -> String {
         let body = self.group(0, &None);
         if self.r.chance(1, 5) { return format!("ASK {{ {body} }}") }
@@ -1612,6 +1811,108 @@ fn directed_datasets() -> Vec<Vec<Quad4>> {
     vec![d0, d1, d2]
 }
 
+// ---------- datasets of the stream `slice-sweep`: chains with FEW loops ----------
+/// Edges n --p--> m, n --q--> m over 5..8 nodes (two of them blank) in the default graph and in named graphs, of which only a
+/// few are loops (n p n); a few triples whose predicate is also their object / subject (n c c, c c c); quoted triples with
+/// and without an inner loop as subjects and objects; some integers.  A pattern such as `?x <tag:p> ?x` is handed every p
+/// edge by the dataset and keeps the loops only.
+fn gen_loop_dataset(r: &mut Rng) -> Vec<Quad4> {
+    let all = [ti("tag:a"), ti("tag:b"), ti("tag:c"), ti("tag:d"), ti("tag:e"), ti("tag:f"), T::Bn("x1".into()), T::Bn("x2".into()), ti("tag:h")];
+    let m = r.range(5, all.len());
+    let nodes: Vec<T> = { let mut v = all.to_vec(); for i in (1..v.len()).rev() { let j = r.below(i + 1); v.swap(i, j); } v.truncate(m); v };
+    let names = [ti("tag:g1"), ti("tag:g2"), T::Bn("g3".into())];
+    let ngraphs = *r.pick(&[0usize, 1, 1, 2, 3]);
+    let mut quads: Vec<Quad4> = vec![];
+    let mut graphs: Vec<Option<T>> = vec![None];
+    for g in names.iter().take(ngraphs) { graphs.push(Some(g.clone())) }
+    for g in &graphs {
+        for p in ["tag:p", "tag:q"] {
+            if g.is_some() && r.chance(1, 3) { continue }
+            let nloops = *r.pick(&[0usize, 1, 1, 1, 2, 2, 3]);
+            let loops: Vec<usize> = (0..nloops).map(|_| r.below(m)).collect();
+            for (i, n) in nodes.iter().enumerate() {
+                if loops.contains(&i) { quads.push((n.clone(), ti(p), n.clone(), g.clone())); if r.chance(1, 3) { quads.push((n.clone(), ti(p), nodes[(i + 1) % m].clone(), g.clone())); } }
+                else if r.chance(5, 6) { let o = nodes[(i + 1 + r.below(m - 1)) % m].clone(); quads.push((n.clone(), ti(p), o, g.clone())); }
+            }
+        }
+        if r.chance(1, 2) { let n = r.pick(&nodes).clone(); quads.push((n, ti("tag:c"), ti("tag:c"), g.clone())); }
+        if r.chance(1, 3) { quads.push((ti("tag:c"), ti("tag:c"), ti("tag:c"), g.clone())); }
+        if r.chance(1, 3) { quads.push((ti("tag:p"), ti("tag:p"), ti("tag:p"), g.clone())); }
+        for _ in 0..r.range(2, 6) {
+            let (a, b) = (r.pick(&nodes).clone(), r.pick(&nodes).clone());
+            let inner = if r.chance(1, 3) { ttr(a.clone(), ti(r.ps(&["tag:p", "tag:q"])), a.clone()) } else { ttr(a.clone(), ti(r.ps(&["tag:p", "tag:q"])), b.clone()) };
+            let other = if r.chance(1, 3) { a.clone() } else { r.pick(&nodes).clone() };
+            if r.chance(1, 2) { quads.push((inner, ti(r.ps(&["tag:q", "tag:p"])), other, g.clone())); } else { quads.push((other, ti(r.ps(&["tag:q", "tag:p"])), inner, g.clone())); }
+        }
+    }
+    for _ in 0..r.range(1, 3) { let n = r.pick(&nodes).clone(); quads.push((n, ti("tag:n"), tint(r.ps(&["0", "1", "2", "5"])), None)); }
+    let mut seen = HashSet::new();
+    quads.retain(|q| seen.insert(q.clone()));
+    quads
+}
+/// the hand-written dataset of the directed `slice` sweep: eight nodes in a p-ring (default graph) and a q-ring (graph g1) with
+/// loops at d and h; quoted edges
+fn directed_loop_dataset() -> Vec<Quad4> {
+    let nodes = ["tag:a", "tag:b", "tag:c", "tag:d", "tag:e", "tag:f", "tag:g", "tag:h"];
+    let mut quads: Vec<Quad4> = vec![];
+    for (i, n) in nodes.iter().enumerate() {
+        let o = if *n == "tag:d" || *n == "tag:h" { n } else { nodes[(i + 1) % nodes.len()] };
+        quads.push((ti(n), ti("tag:p"), ti(o), None));
+        quads.push((ti(n), ti("tag:q"), ti(o), Some(ti("tag:g1"))));
+        quads.push((ttr(ti(n), ti("tag:p"), ti(o)), ti("tag:q"), ti(n), None));
+    }
+    quads.push((ti("tag:a"), ti("tag:p"), ti("tag:a"), Some(ti("tag:g2"))));
+    quads
+}
+/// further directed cases, run after all the streams above: (label, dataset, query) with dataset 0..2 = `directed_datasets`,
+/// 3 = `directed_loop_dataset`
+fn directed_more() -> Vec<(&'static str, usize, String)> {
+    let mut out: Vec<(&'static str, usize, String)> = vec![];
+    // BNODE in BIND / SELECT expressions over patterns with three or more solutions: a node of its own for every solution
+    for q in [
+        "SELECT ?s ?b { ?s <tag:p> ?o BIND(BNODE() AS ?b) }",
+        "SELECT (BNODE(\"x\") AS ?b) (isBlank(BNODE()) AS ?c) { ?s <tag:p> ?o }",
+        "SELECT DISTINCT ?b { ?s <tag:p> ?o BIND(40+2 AS ?b) }",
+        "SELECT DISTINCT ?b { ?s <tag:p> ?o BIND(BNODE() AS ?b) }",
+        "SELECT DISTINCT ?b { ?s <tag:p> ?o BIND(BNODE(\"y\") AS ?b) }",
+        "SELECT DISTINCT ?t { ?s <tag:p> ?o BIND(TRIPLE(BNODE(), <tag:q>, 1) AS ?t) }",
+        "SELECT DISTINCT ?t { ?s <tag:p> ?o BIND(TRIPLE(<tag:a>, <tag:q>, BNODE()) AS ?t) }",
+        "SELECT DISTINCT ?b { ?s <tag:p> ?o BIND(IF(true, BNODE(), 1) AS ?b) }",
+        "SELECT DISTINCT ?b { ?s <tag:p> ?o BIND(COALESCE(?zz, BNODE()) AS ?b) }",
+        "SELECT DISTINCT ?b { ?s <tag:p> ?o BIND(COALESCE(?zz + 1, BNODE()) AS ?b) }",
+        "SELECT DISTINCT (BNODE() AS ?b) { ?s <tag:p> ?o }",
+        "SELECT * { { ?s <tag:p> ?o BIND(BNODE() AS ?b) } UNION { ?s <tag:n> ?o BIND(BNODE() AS ?b) } }",
+        "SELECT * { { SELECT ?s (BNODE() AS ?b) { ?s <tag:p> ?o } } BIND(BNODE() AS ?c) }",
+        "SELECT DISTINCT ?b ?c { { SELECT ?s (BNODE() AS ?b) { ?s <tag:p> ?o } } BIND(BNODE() AS ?c) }",
+        "SELECT * { GRAPH ?g { ?s ?p ?o BIND(BNODE() AS ?b) } }",
+        "SELECT DISTINCT ?b { GRAPH <tag:g1> { ?s ?p ?o BIND(BNODE() AS ?b) } }",
+        "ASK { ?s <tag:p> ?o BIND(BNODE() AS ?b) FILTER(isBlank(?b)) }",
+        "SELECT ?s { ?s <tag:p> ?o BIND(BNODE() AS ?b) FILTER EXISTS { ?x ?y ?b } }",
+        "SELECT ?b ?c { ?s <tag:p> ?o BIND(BNODE() AS ?b) BIND(BNODE() AS ?c) FILTER(!sameTerm(?b, ?c)) }",
+        "SELECT ?b ?c { ?s <tag:p> ?o BIND(BNODE() AS ?b) BIND(?b AS ?c) FILTER(sameTerm(?b, ?c)) }",
+        "SELECT ?b { ?s <tag:p> ?o BIND(BNODE() AS ?b) } LIMIT 2",
+        "SELECT ?b { ?s <tag:p> ?o BIND(BNODE() AS ?b) } OFFSET 1",
+        "SELECT (sameTerm(BNODE(), BNODE()) AS ?e) (BNODE() = BNODE() AS ?f) { ?s <tag:p> ?o }",
+        "SELECT ?s (BNODE(?n) AS ?b) { ?s <tag:s> ?n }",
+        "SELECT DISTINCT ?b { ?s <tag:n> ?a BIND(BNODE(?a) AS ?b) }",
+    ] { out.push(("fresh-directed", 2, q.to_string())); }
+    // OFFSET / LIMIT windows over BGPs with a repeated variable / blank node placeholder (few of the candidate triples are
+    // solutions), reached through projection and BIND, through GRAPH, FILTER, DISTINCT, UNION and a sub-select
+    for body in [
+        "SELECT * { ?x <tag:p> ?x }", "SELECT ?x { ?x ?p ?x }", "SELECT * { _:b <tag:p> _:b }", "SELECT * { ?y ?p ?x . ?x <tag:p> ?x }",
+        "SELECT ?x (1 AS ?k) { ?x <tag:p> ?x }", "SELECT * { ?x <tag:p> ?x BIND(?x AS ?k) }",
+        "SELECT * { GRAPH <tag:g1> { ?x <tag:q> ?x } }", "SELECT * { GRAPH ?g { ?x ?p ?x } }",
+        "SELECT * { << ?x <tag:p> ?x >> <tag:q> ?o }", "SELECT * { ?x <tag:p> ?x FILTER(BOUND(?x)) }", "SELECT DISTINCT ?x { ?x ?p ?x }",
+        "SELECT * { { ?x <tag:p> ?x } UNION { ?y <tag:p> ?x } }", "SELECT * { { SELECT ?x { ?x <tag:p> ?x } LIMIT 1 } }", "SELECT * { { SELECT ?x { ?x <tag:p> ?x } OFFSET 1 LIMIT 1 } }",
+    ] {
+        for off in 0..=2usize { for lim in 0..=3usize {
+            out.push(("slice-directed", 3, if off == 0 { format!("{body} LIMIT {lim}") } else { format!("{body} OFFSET {off} LIMIT {lim}") }));
+        } }
+        out.push(("slice-directed", 3, format!("{body} OFFSET 1")));
+    }
+    out
+}
+
 fn canon_rows(vars: &[String], rows: &[Vec<Option<T>>]) -> Vec<Vec<(String, T)>> {
     let mut out: Vec<Vec<(String, T)>> = rows.iter().map(|r| { let mut m: Vec<(String, T)> = vars.iter().zip(r).filter_map(|(v, t)| t.clone().map(|t| (v.clone(), t))).collect(); m.sort(); m }).collect();
     out.sort();
@@ -1622,6 +1923,72 @@ fn canon_mus(vars: &[String], mus: &[Mu]) -> Vec<Vec<(String, T)>> {
     out.sort();
     out
 }
+// ---------- blank nodes created by the query (BNODE): rows are compared up to ONE renaming of them for the whole answer ----------
+fn bn_labels(t: &T, out: &mut Vec<String>) { match t { T::Bn(b) => out.push(b.clone()), T::Tr(b) => b.iter().for_each(|x| bn_labels(x, out)), _ => {} } }
+fn rename_bn(t: &T, f: &mut dyn FnMut(&str) -> String) -> T {
+    match t { T::Bn(b) => T::Bn(f(b)), T::Tr(b) => ttr(rename_bn(&b[0], f), rename_bn(&b[1], f), rename_bn(&b[2], f)), _ => t.clone() }
+}
+fn data_labels(quads: &[Quad4]) -> BTreeSet<String> {
+    let mut v = vec![];
+    for (s, p, o, g) in quads { bn_labels(s, &mut v); bn_labels(p, &mut v); bn_labels(o, &mut v); if let Some(g) = g { bn_labels(g, &mut v) } }
+    v.into_iter().collect()
+}
+/// The blank nodes of a row that are not the dataset's, renamed by the order of their first occurrence in the row.  Two
+/// answers are equal up to ONE renaming of the created blank nodes iff they are equal under this per-row renaming AND, in
+/// both, no created blank node occurs in two rows (`shared_fresh`): no operator of the supported fragment copies a solution.
+fn mask_rows(rows: Vec<Vec<(String, T)>>, data: &BTreeSet<String>) -> Vec<Vec<(String, T)>> {
+    let mut out: Vec<Vec<(String, T)>> = rows.into_iter().map(|row| {
+        let mut seen: Vec<String> = vec![];
+        row.into_iter().map(|(v, t)| { let t2 = rename_bn(&t, &mut |b: &str| { if data.contains(b) { return b.to_string() } let k = match seen.iter().position(|x| x == b) { Some(k) => k, None => { seen.push(b.to_string()); seen.len() - 1 } }; format!("{MASK}{k}") }); (v, t2) }).collect()
+    }).collect();
+    out.sort();
+    out
+}
+/// a created blank node (not the dataset's) that occurs in two rows
+fn shared_fresh<'a, I: Iterator<Item = Vec<&'a T>>>(rows: I, data: &BTreeSet<String>) -> Option<String> {
+    let mut owner: BTreeMap<String, usize> = BTreeMap::new();
+    for (k, row) in rows.enumerate() {
+        let mut v = vec![]; for t in row { bn_labels(t, &mut v) }
+        for b in v { if data.contains(&b) { continue } if let Some(o) = owner.get(&b) { if *o != k { return Some(b) } } else { owner.insert(b, k); } }
+    }
+    None
+}
+fn ex_has(e: &Ex, f: &dyn Fn(&Ex) -> bool) -> bool { f(e) || e.kids().iter().any(|k| ex_has(k, f)) || matches!(e, Ex::Exists(p) if pat_has(p, &|_| false, f)) }
+/// some operator of the pattern satisfies `fp`, or some expression node (EXISTS groups included) satisfies `fe`
+fn pat_has(p: &Pat, fp: &dyn Fn(&Pat) -> bool, fe: &dyn Fn(&Ex) -> bool) -> bool {
+    if fp(p) { return true }
+    match p {
+        Pat::Bgp(_) | Pat::Unsup(_) => false,
+        Pat::Union(l, r) => pat_has(l, fp, fe) || pat_has(r, fp, fe),
+        Pat::Filter(e, i) | Pat::Extend(i, _, e) => ex_has(e, fe) || pat_has(i, fp, fe),
+        Pat::OrderBy(i, es) => es.iter().any(|e| ex_has(e, fe)) || pat_has(i, fp, fe),
+        Pat::Graph(_, i) | Pat::Project(i, _) | Pat::Distinct(i) | Pat::Slice(i, _, _) => pat_has(i, fp, fe),
+    }
+}
+fn pat_has_fresh(p: &Pat) -> bool { pat_has(p, &|_| false, &|e| matches!(e, Ex::Fresh(_))) }
+/// The queries with BNODE that the Coq model can run with a placeholder node (see `c_ex`): every BNODE call is the whole
+/// expression of a BIND / SELECT expression, without argument or with a constant string; no expression reads a variable
+/// bound that way; no DISTINCT (it would merge the model's placeholder rows) and no EXISTS
+fn maskable(p: &Pat) -> bool {
+    fn targets(p: &Pat, out: &mut BTreeSet<String>) -> bool {
+        match p {
+            Pat::Bgp(_) | Pat::Unsup(_) => true,
+            Pat::Union(l, r) => targets(l, out) && targets(r, out),
+            Pat::Extend(i, v, e) => {
+                let whole = match e { Ex::Fresh(None) => true, Ex::Fresh(Some(a)) => matches!(&**a, Ex::Const(t) if plain_string(t).is_some()), _ => false };
+                if whole { out.insert(v.clone()); } else if e.has_fresh() { return false }
+                targets(i, out)
+            }
+            Pat::Filter(e, i) => !e.has_fresh() && targets(i, out),
+            Pat::OrderBy(i, es) => !es.iter().any(|e| e.has_fresh()) && targets(i, out),
+            Pat::Graph(_, i) | Pat::Project(i, _) | Pat::Distinct(i) | Pat::Slice(i, _, _) => targets(i, out),
+        }
+    }
+    let mut ts = BTreeSet::new();
+    if !targets(p, &mut ts) { return false }
+    if pat_has(p, &|q| matches!(q, Pat::Distinct(_)), &|e| matches!(e, Ex::Exists(_))) { return false }
+    !pat_has(p, &|q| matches!(q, Pat::Graph(NP::Var(v), _) if ts.contains(v)), &|e| matches!(e, Ex::Var(v) | Ex::Bound(v) if ts.contains(v)))
+}
 /// `a` is a sub-multiset of `b` (both sorted)
 fn sub_multiset<X: Ord + Clone>(a: &[X], b: &[X]) -> bool {
     let (mut i, mut j) = (0, 0);
@@ -1631,10 +1998,10 @@ fn sub_multiset<X: Ord + Clone>(a: &[X], b: &[X]) -> bool {
 /// the shapes of the EXISTS groups of a query (for the input distribution)
 fn tp_vars(t: &TP, out: &mut BTreeSet<String>) { match t { TP::Var(v) => { out.insert(v.clone()); } TP::Trip(b) => b.iter().for_each(|x| tp_vars(x, out)), _ => {} } }
 fn ex_vars(e: &Ex, out: &mut BTreeSet<String>) {
-    match e { Ex::Var(v) | Ex::Bound(v) => { out.insert(v.clone()); } Ex::Not(a) | Ex::Un(_, a) => ex_vars(a, out), Ex::Or(a, b) | Ex::And(a, b) | Ex::Bin(_, a, b) => { ex_vars(a, out); ex_vars(b, out) } _ => {} }
+    match e { Ex::Var(v) | Ex::Bound(v) => { out.insert(v.clone()); } Ex::Not(a) | Ex::Un(_, a) => ex_vars(a, out), Ex::Or(a, b) | Ex::And(a, b) | Ex::Bin(_, a, b) => { ex_vars(a, out); ex_vars(b, out) } Ex::Exists(_) => {} _ => e.kids().iter().for_each(|k| ex_vars(k, out)) }
 }
 fn ex_exists<'a>(e: &'a Ex, out: &mut Vec<&'a Pat>) {
-    match e { Ex::Exists(p) => out.push(p), Ex::Not(a) | Ex::Un(_, a) => ex_exists(a, out), Ex::Or(a, b) | Ex::And(a, b) | Ex::Bin(_, a, b) => { ex_exists(a, out); ex_exists(b, out) } _ => {} }
+    match e { Ex::Exists(p) => out.push(p), Ex::Not(a) | Ex::Un(_, a) => ex_exists(a, out), Ex::Or(a, b) | Ex::And(a, b) | Ex::Bin(_, a, b) => { ex_exists(a, out); ex_exists(b, out) } _ => e.kids().iter().for_each(|k| ex_exists(k, out)) }
 }
 /// (variables of the triple patterns, variables of the FILTER / BIND expressions outside nested EXISTS, nested EXISTS groups, has GRAPH, has BIND)
 fn group_shape<'a>(p: &'a Pat, tv: &mut BTreeSet<String>, ev: &mut BTreeSet<String>, nested: &mut Vec<&'a Pat>, flags: &mut (bool, bool, bool)) {
@@ -1733,9 +2100,9 @@ fn collect_ops(p: &Pat, out: &mut BTreeSet<&'static str>) {
 
 fn main() {
     let a = parse_args();
-    std::panic::set_hook(Box::new(|_| {}));
+    if std::env::var("C13_DEBUG").is_err() { std::panic::set_hook(Box::new(|_| {})); }
     let mut sum = Summary::default();
-    sum.rule = "case = (dataset: default graph + 0..3 named graphs (one named by a blank node) sharing triples drawn from a pool with integers incl. isize::MIN/MAX, big and ill-typed ones, strings, booleans, decimals, doubles, dateTime, custom datatypes, language tags in both cases, quoted triples; query from the supported grammar: <= 4 triple patterns per BGP with repeated variables, blank node placeholders, quoted triple patterns, nested UNION / GRAPH (constant, variable, absent name) / FILTER (comparisons, BOUND, sameTerm, type errors) / BIND / sub-select / DISTINCT / projection / ORDER BY / OFFSET-LIMIT, [NOT] EXISTS (in FILTER, under connectives, in BIND and SELECT expressions) over GROUPS with FILTER / BIND / nested EXISTS / GRAPH that read variables of the enclosing group absent from the group's triple patterns (18.6 substitution; oracle by carrying the substitution out; sub-selects inside the group are decided when they hide no variable bound outside -- directed queries only, known finding EXISTS-SUBSELECT-DROPS-OUTER), comparisons over integer arithmetic that leaves the isize range and comes back; a second random stream of one BGP tested by one EXISTS group; or one of the directed queries incl. every unsupported operator; streams `nested-*`: datasets made of quoted triples of depth 2 and 3 with their one-place variants (another constant / a quoted triple where there was an atom / an atom or a component where there was a quoted triple, at every depth) as subjects and objects in the default and in named graphs, queried by quoted-triple patterns that keep that structure down to depth 3 with inner patterns mixing constants, fresh / repeated / already bound variables and blank node placeholders -- in BGPs, inside GRAPH, inside [NOT] EXISTS, and through the whole random grammar -- plus directed queries of that kind); \
+    sum.rule = "case = (dataset: default graph + 0..3 named graphs (one named by a blank node) sharing triples drawn from a pool with integers incl. isize::MIN/MAX, big and ill-typed ones, strings, booleans, decimals, doubles, dateTime, custom datatypes, language tags in both cases, quoted triples; query from the supported grammar: <= 4 triple patterns per BGP with repeated variables, blank node placeholders, quoted triple patterns, nested UNION / GRAPH (constant, variable, absent name) / FILTER (comparisons, BOUND, sameTerm, type errors) / BIND / sub-select / DISTINCT / projection / ORDER BY / OFFSET-LIMIT, [NOT] EXISTS (in FILTER, under connectives, in BIND and SELECT expressions) over GROUPS with FILTER / BIND / nested EXISTS / GRAPH that read variables of the enclosing group absent from the group's triple patterns (18.6 substitution; oracle by carrying the substitution out; sub-selects inside the group are decided when they hide no variable bound outside -- directed queries only, known finding EXISTS-SUBSELECT-DROPS-OUTER), comparisons over integer arithmetic that leaves the isize range and comes back; a second random stream of one BGP tested by one EXISTS group; or one of the directed queries incl. every unsupported operator; streams `nested-*`: datasets made of quoted triples of depth 2 and 3 with their one-place variants (another constant / a quoted triple where there was an atom / an atom or a component where there was a quoted triple, at every depth) as subjects and objects in the default and in named graphs, queried by quoted-triple patterns that keep that structure down to depth 3 with inner patterns mixing constants, fresh / repeated / already bound variables and blank node placeholders -- in BGPs, inside GRAPH, inside [NOT] EXISTS, and through the whole random grammar -- plus directed queries of that kind; stream `fresh` (+ directed): BNODE() / BNODE(str) / BNODE(?v), alone or carried by TRIPLE / IF / COALESCE or tested by isBlank / sameTerm, in BIND and SELECT expressions over patterns steered to have 2+ solutions, under DISTINCT, UNION, GRAPH, sub-selects, FILTER / EXISTS reading the created node, OFFSET / LIMIT -- answers compared up to ONE renaming of the created blank nodes for the whole answer (no created node in two rows, none a node of the dataset); streams `slice-sweep-*` (+ directed): six OFFSET / LIMIT windows, placed by the number of solutions, per query -- over datasets of chains with few loops queried by BGPs with a repeated variable / blank node placeholder (also inside quoted-triple patterns) reached through projection, BIND, GRAPH, FILTER, DISTINCT, UNION, sub-selects with a window of their own, and over the random grammar); \
 non-trivial = the engine returned at least one row / true, or an error was expected; distinct = distinct (query text, dataset)".into();
     let base = Rng::new(a.seed);
     let dir = directed();
@@ -1749,6 +2116,12 @@ non-trivial = the engine returned at least one row / true, or an error was expec
     datasets.push(directed_nested_dataset());
     let n_nested_data = 10usize;
     for k in 0..n_nested_data { let mut r = base.fork(1_500_000 + k as u64); datasets.push(gen_nested_dataset(&mut r)); }
+    // the datasets of `directed_more` and of the stream `slice-sweep`
+    let dmore_loop = datasets.len();
+    datasets.push(directed_loop_dataset());
+    let loop_from = datasets.len();
+    let n_loop_data = 8usize;
+    for k in 0..n_loop_data { let mut r = base.fork(1_700_000 + k as u64); datasets.push(gen_loop_dataset(&mut r)); }
     let mut stores = vec![];
     let mut model_data = vec![]; // quads in the engine's iteration order, canonicalised
     for (k, q) in datasets.iter().enumerate() {
@@ -1760,7 +2133,7 @@ non-trivial = the engine returned at least one row / true, or an error was expec
         model_data.push(it);
         stores.push(d);
     }
-    let mut header = String::from("From Sophia.C13 Require Import Model Eval Exists.\n");
+    let mut header = String::from("From Sophia.C13 Require Import Model Eval Exists Fresh.\n");
     for (k, q) in model_data.iter().enumerate() {
         header.push_str(&format!("Definition d{k} : dataset := {}.\n", coq_list(q.iter().map(|(s, p, o, g)| format!("(({}, {}, {}), {})", s.coq(), p.coq(), o.coq(), coq_opt(g.as_ref().map(|g| g.coq())))))));
     }
@@ -1771,7 +2144,15 @@ non-trivial = the engine returned at least one row / true, or an error was expec
     let dirn = directed_nested();
     let n_nested = a.n / 2;
     let nested_from = dir.len() + a.n + n_exists;
-    let total = nested_from + dirn.len() + n_nested;
+    // then `directed_more` and the streams `fresh` and `slice-sweep` (six windows per query)
+    let dir2 = directed_more();
+    let more_from = nested_from + dirn.len() + n_nested;
+    let fresh_from = more_from + dir2.len();
+    let n_fresh = a.n / 4;
+    let sweep_from = fresh_from + n_fresh;
+    const WINDOWS: usize = 6;
+    let n_sweep = (a.n / 2 / WINDOWS) * WINDOWS;
+    let total = sweep_from + n_sweep;
     let range: Vec<usize> = match a.only { Some(i) => vec![i], None => (0..total).collect() };
     for idx in range {
         EXOTIC_OPERAND.with(|f| f.set(false));
@@ -1779,6 +2160,49 @@ non-trivial = the engine returned at least one row / true, or an error was expec
         let mut r = base.fork(idx as u64);
         let (label, di, text) = if idx < dir.len() { let (l, d, q) = &dir[idx]; (*l, *d, q.clone()) }
         else if idx >= nested_from && idx < nested_from + dirn.len() { let (l, q) = &dirn[idx - nested_from]; (*l, dn_directed, q.clone()) }
+        else if idx >= sweep_from {
+            // the query is drawn from (seed, idx / WINDOWS): the WINDOWS cases of one query differ in their OFFSET / LIMIT only
+            let (qid, w) = ((idx - sweep_from) / WINDOWS, (idx - sweep_from) % WINDOWS);
+            let mut rq = base.fork(3_000_000 + qid as u64);
+            let loops = qid % 3 != 2;
+            let di = if loops { loop_from + rq.below(n_loop_data) } else { rq.below(n_plain) };
+            let upper = rq.chance(1, 3);
+            // the number of solutions the engine gives without a window only STEERS the generation: of up to 8 queries the
+            // first with 3 or more rows (else the one with most rows) is kept, and the windows are placed by that number
+            let (mut unsliced, mut total) = (String::new(), 0usize);
+            for attempt in 0..8 {
+                let mut g = Gen { r: &mut rq, quads: &datasets[di], unsafe_vars: BTreeSet::new(), upper, wit: vec![], bn: 0, bnwit: vec![], fresh: 0, nested: false };
+                let cand = if loops { g.loop_query() } else { g.unsliced_query() };
+                let n = match run_engine(&stores[di], &cand).0 { Obs::Rows(_, rows) => rows.len(), _ => 0 };
+                if attempt == 0 || n > total { unsliced = cand; total = n; }
+                if total >= 3 { break }
+            }
+            let (off, lim): (usize, Option<usize>) = match w {
+                0 => (0, Some(1)),
+                1 => (0, Some(total.saturating_sub(1).max(1))),
+                2 => (1, Some(1)),
+                3 => (total / 2, Some(total - total / 2)),
+                4 => (r.below(total + 1), Some(r.below(total + 2))),
+                _ => if r.chance(1, 3) { (total.saturating_sub(1), None) } else { (r.below(total + 1), Some(1 + r.below(total + 1))) },
+            };
+            let mut text = unsliced;
+            if off > 0 || r.chance(1, 8) { text.push_str(&format!(" OFFSET {off}")) }
+            if let Some(l) = lim { text.push_str(&format!(" LIMIT {l}")) }
+            (if loops { "slice-sweep-loops" } else { "slice-sweep-random" }, di, text)
+        }
+        else if idx >= fresh_from {
+            let di = r.below(n_plain);
+            let upper = r.chance(1, 3);
+            // steered likewise: of up to 5 queries the first to which the engine answers 2 or more rows (else the last)
+            let mut text = String::new();
+            for _ in 0..5 {
+                let mut g = Gen { r: &mut r, quads: &datasets[di], unsafe_vars: BTreeSet::new(), upper, wit: vec![], bn: 0, bnwit: vec![], fresh: 0, nested: false };
+                text = g.fresh_query();
+                if matches!(run_engine(&stores[di], &text).0, Obs::Rows(_, rows) if rows.len() >= 2) { break }
+            }
+            ("fresh", di, text)
+        }
+        else if idx >= more_from { let (l, d, q) = &dir2[idx - more_from]; (*l, if *d == 3 { dmore_loop } else { *d }, q.clone()) }
         else if idx >= nested_from + dirn.len() {
             let di = dn_directed + 1 + r.below(n_nested_data);
             let upper = r.chance(1, 3);
@@ -1791,7 +2215,26 @@ non-trivial = the engine returned at least one row / true, or an error was expec
             if idx >= dir.len() + a.n { ("random-exists", di, g.exists_query()) } else { ("random", di, g.query()) }
         };
         let ds = Ds { quads: datasets[di].clone() };
+        let dlabels = data_labels(&datasets[di]);
+        FRESH_COUNTER.with(|c| c.set(0));
         let (obs, dbg) = run_engine(&stores[di], &text);
+        // a prepared query is a value: run on another dataset first and then on this one, it answers like a fresh one
+        // (queries creating blank nodes / random values are not comparable run to run)
+        if stores.len() > 1 && !matches!(obs, Obs::Parse(_)) && (idx % 2 == 0 || text.contains("GRAPH")) {
+            let up = text.to_ascii_uppercase();
+            if !["BNODE", "RAND", "UUID", "NOW"].iter().any(|f| up.contains(f)) {
+                for decoy in [(di + 1) % stores.len(), (di + stores.len() - 1) % stores.len()] {
+                    if decoy == di { continue }
+                    if let Some(o2) = run_engine_reused(&stores[decoy], &stores[di], &text) {
+                        sum.bump("prepared-query-reused");
+                        if obs_key(&o2) != obs_key(&obs) {
+                            sum.oracle_failures.push((idx.to_string(), format!("prepared query reused: `{text}` executed on dataset d{decoy} and then on d{di} answers {o2:?}, a freshly prepared one answers {obs:?} on d{di}")));
+                            break;
+                        }
+                    }
+                }
+            }
+        }
         let verbose = a.only.is_some();
         if verbose { println!("CASE {idx} [{label}] dataset d{di}:\n  {text}\n  engine: {obs:?}"); }
         if let Obs::Parse(e) = &obs { sum.bump("rejected-by-the-parser"); if std::env::var("C13_DEBUG").is_ok() { eprintln!("REJECT {e} :: {text}"); } if verbose { println!("  parse error: {e}") } continue; }
@@ -1819,6 +2262,7 @@ non-trivial = the engine returned at least one row / true, or an error was expec
             match eval_top(pat, &ds) {
                 Err(OErr::Unsupported) => unreachable!(),
                 Err(OErr::Undetermined(why)) => { sum.bump(&format!("oracle-undetermined:{why}")); }
+                Ok((mus, _)) if shared_fresh(mus.iter().map(|m| m.values().collect()), &dlabels).is_some() => { sum.bump("oracle-undetermined:a created blank node occurs in two solutions of the oracle"); }
                 Ok((mus, slice)) => {
                     let count = |mus: &[Mu], slice: Option<(usize, Option<usize>)>| match slice { None => mus.len(), Some((s, l)) => { let rest = mus.len().saturating_sub(s); l.map_or(rest, |l| l.min(rest)) } };
                     let expected_n = count(&mus, slice);
@@ -1827,7 +2271,11 @@ non-trivial = the engine returned at least one row / true, or an error was expec
                         let n = count(mus, slice);
                         match &obs {
                             Obs::Bool(b) if is_ask => *b == (n > 0),
-                            Obs::Rows(vars, rows) if !is_ask => { let (got, want) = (canon_rows(vars, rows), canon_mus(vars, mus)); if slice.is_none() { got == want } else { rows.len() == n && sub_multiset(&got, &want) } }
+                            Obs::Rows(vars, rows) if !is_ask => {
+                                // blank nodes created by BNODE: equal up to one renaming for the whole answer
+                                if shared_fresh(rows.iter().map(|r| r.iter().flatten().collect()), &dlabels).is_some() { return false }
+                                let (got, want) = (mask_rows(canon_rows(vars, rows), &dlabels), mask_rows(canon_mus(vars, mus), &dlabels));
+                                if slice.is_none() { got == want } else { rows.len() == n && sub_multiset(&got, &want) } }
                             _ => false,
                         }
                     };
@@ -1849,7 +2297,9 @@ non-trivial = the engine returned at least one row / true, or an error was expec
                             sum.bump("expected:rows");
                             if !rows.is_empty() { nontrivial = true }
                             let want = canon_mus(vars, &mus);
-                            if !answers(&mus, slice) { sum.oracle_failures.push((idx.to_string(), tagged(describe(&format!("{} solution(s){}: {:?}", expected_n, if slice.is_some() { " taken from" } else { "" }, want))))) }
+                            if !answers(&mus, slice) {
+                                let fresh_note = if pat_has_fresh(pat) { match shared_fresh(rows.iter().map(|r| r.iter().flatten().collect()), &dlabels) { Some(b) => format!(" (every BNODE call creates a blank node of its own for every solution, 17.4.2.9: equal up to ONE renaming of the created nodes for the whole answer; the engine's _:{b} occurs in two rows)"), None => " (equal up to one renaming of the blank nodes created by BNODE)".to_string() } } else { String::new() };
+                                sum.oracle_failures.push((idx.to_string(), tagged(describe(&format!("{} solution(s){}: {:?}{fresh_note}", expected_n, if slice.is_some() { " taken from" } else { "" }, want))))) }
                             sum.bump(&format!("rows:{}", match rows.len() { 0 => "0", 1 => "1", 2..=9 => "2-9", _ => "10+" }));
                         }
                         _ => { sum.bump("engine:error-on-supported-query"); sum.oracle_failures.push((idx.to_string(), describe("solutions (no operator is unsupported)"))) }
@@ -1873,6 +2323,18 @@ non-trivial = the engine returned at least one row / true, or an error was expec
             }
         }
         sum.bump(&format!("stream:{label}"));
+        if let (Some(p), Obs::Rows(_, rows)) = (pat, &obs) {
+            if pat_has_fresh(p) { sum.bump(&format!("fresh:{} row(s)", match rows.len() { 0 => "0", 1 => "1", _ => "2+" })); if rows.len() >= 2 && pat_has(p, &|q| matches!(q, Pat::Distinct(_)), &|_| false) { sum.bump("fresh:2+ rows under DISTINCT") } }
+            if label.starts_with("slice-") { if let Pat::Slice(i, s, l) = p {
+                if let Ok(inner) = eval(i, &ds, &None) { let n = inner.len(); let kept = rows.len();
+                    sum.bump(&format!("{}:{}", if label == "slice-directed" { "slice-directed" } else { "slice-sweep" }, if n == 0 { "no solution below the window" } else if kept == n { "the window keeps every solution" } else if kept == 0 { "the window keeps nothing" } else { "a proper window (some solutions kept, some cut)" }));
+                    let _ = (s, l); }
+                if let Pat::Bgp(ps) = { let mut q: &Pat = i; loop { match q { Pat::Project(j, _) | Pat::Extend(j, _, _) => q = j, _ => break q } } } {
+                    let repeated = ps.iter().any(|t| { let mut occ = vec![]; fn occs(t: &TP, out: &mut Vec<String>) { match t { TP::Var(v) => out.push(format!("?{v}")), TP::Bn(b) => out.push(format!("_:{b}")), TP::Trip(b) => b.iter().for_each(|x| occs(x, out)), _ => {} } } t.iter().for_each(|x| occs(x, &mut occ)); occ.iter().collect::<BTreeSet<_>>().len() < occ.len() });
+                    if repeated && !rows.is_empty() { sum.bump("slice:a window directly over projection / BIND / BGP with a repeated variable or label, non-empty answer"); }
+                }
+            } }
+        }
         // quoted-triple patterns nested in quoted-triple patterns: where they occur, and whether the answer depends on them
         if let (Some(p), false) = (pat, expect_err) {
             let mut sh = BTreeSet::new(); nested_shapes(p, false, false, &mut sh);
@@ -1899,12 +2361,20 @@ non-trivial = the engine returned at least one row / true, or an error was expec
         // ---------- Coq case ----------
         if EXOTIC_OPERAND.with(|f| f.replace(false)) { sum.bump("coq:skipped (an expression touched a decimal/float/double/dateTime/ill-formed operand: expression layer c13e)"); continue }
         // queries with EXISTS go to the model of coq/C13/Exists.v (checker wquery_ok), the others to Model.v / Eval.v
-        let (checker, cq) = match c_query(&q) { Some(cq) => ("query_ok", cq), None => match w_query(&q) { Some(wq) => { sum.bump("coq:with-EXISTS (Exists.v)"); ("wquery_ok", wq) } None => { sum.bump("coq:not-expressible"); continue } } };
+        // BNODE: the model runs with a placeholder node, the engine's rows are masked alike, the labels go to Fresh.fresh_ok
+        let with_fresh = pat.map_or(false, pat_has_fresh);
+        let masked = with_fresh && pat.map_or(false, maskable);
+        if with_fresh { sum.bump(if masked { "coq:with-BNODE (placeholder node + Fresh.fresh_ok)" } else { "coq:with-BNODE not expressible (DISTINCT / a reader of the created node / BNODE inside an expression)" }); }
+        MASK_FRESH.with(|f| f.set(masked));
+        let cq0 = c_query(&q);
+        MASK_FRESH.with(|f| f.set(false));
+        let (checker, cq) = match cq0 { Some(cq) => ("query_ok", cq), None => match w_query(&q) { Some(wq) => { sum.bump("coq:with-EXISTS (Exists.v)"); ("wquery_ok", wq) } None => { sum.bump("coq:not-expressible"); continue } } };
         let observed = match &obs {
             Obs::Rows(vars, rows) => {
                 if rows.len() > 300 { sum.bump("coq:too-many-rows"); continue }
                 let Some(in_order) = pat.map_or(Some(false), compare_in_order) else { sum.bump("coq:skipped (ORDER BY beneath OFFSET/LIMIT: the kept rows depend on the order, C14)"); continue };
-                format!("(ORows {} {} {})", coq_list(vars.iter().map(|v| coq_str(v))), coq_list(rows.iter().map(|r| coq_list(r.iter().map(|t| coq_opt(t.as_ref().map(|t| t.coq())))))), coq_bool(in_order))
+                let show = |t: &T| -> String { if masked { rename_bn(t, &mut |b: &str| if dlabels.contains(b) { b.to_string() } else { MASK.to_string() }).coq() } else { t.coq() } };
+                format!("(ORows {} {} {})", coq_list(vars.iter().map(|v| coq_str(v))), coq_list(rows.iter().map(|r| coq_list(r.iter().map(|t| coq_opt(t.as_ref().map(|t| show(t))))))), coq_bool(in_order))
             }
             Obs::Bool(b) => format!("(OBool {})", coq_bool(*b)),
             Obs::Err(e) => {
@@ -1918,7 +2388,10 @@ non-trivial = the engine returned at least one row / true, or an error was expec
             Obs::Panic(_) => "(OErr (Override [0;0]))".into(), // never equal to a model answer
             Obs::Parse(_) => unreachable!(),
         };
-        cases.push((idx, format!("{checker} d{di} {cq} {observed}")));
+        let fresh_part = match (&obs, masked) {
+            (Obs::Rows(_, rows), true) => format!(" && fresh_ok d{di} {}", coq_list(rows.iter().map(|r| { let mut v = vec![]; for t in r.iter().flatten() { bn_labels(t, &mut v) } let v: BTreeSet<String> = v.into_iter().filter(|b| !dlabels.contains(b)).collect(); coq_list(v.iter().map(|b| coq_str(b))) }))),
+            _ => String::new() };
+        cases.push((idx, format!("{checker} d{di} {cq} {observed}{fresh_part}")));
     }
     if a.only.is_none() {
         sum.shards = write_shards(&a.out, &header, &cases, a.shards);
